@@ -687,7 +687,7 @@ func init() {
 		Level: "exploration",
 		Rule: "per case a list of 4..44 lines mixing adblock-style rules (DNS-level modifiers only / browser-only modifiers / any mix, $dnsrewrite, badfilter twins), hosts lines (IPv4, IPv6, several names, comments), bare domains and inert lines, over host names that include FastHash-colliding groups, split into 1..3 lists; 24 DNS requests per list varying record type, client name/IP, sorted tags and perturbed host names; plus testdata/hosts + adguard_sdn_filter.txt against real and perturbed host names; " +
 			"half of the storages are loaded with IgnoreCosmetic, hosts lines carry trailing comments that quote rules of other kinds; " +
-			"oracle = scan of every rule with a fresh request: NetworkRules as a text set, nil-ness and class of NetworkRule, membership in the effective candidates, host rules only without a basic rule and split by address family, matched flag, empty hostname; non-trivial = request with at least one expected rule; distinct by (request, list)",
+			"queries also carry labels outside the host alphabet in front of a listed name and ports; hosts entries written with capitals; lists saved without a final newline; oracle = scan of every rule with a fresh request (the rule's own Match, itself compared with the independent matcher of C04 for mask rules): NetworkRules as a text set, nil-ness and class of NetworkRule, membership in the effective candidates, host rules only without a basic rule and split by address family, matched flag, empty hostname; non-trivial = request with at least one expected rule; distinct by (request, list)",
 		Assumptions: []string{
 			"rules carrying only {important, badfilter, dnstype, dnsrewrite, ctag, client, denyallow} must be used, rules with $domain, third-/first-party, document-level or cosmetic exception options, stealth, popup, empty, mp4 must be ignored; content-type modifiers and match-case are don't-care (the engine's own IsHostLevelNetworkRule decides)",
 			"NetworkRule.Match and HostRule names are the definition of 'matches the hostname'",
